@@ -256,6 +256,14 @@ def handle2 (op : String) (a obs : List String) : Option Verdict :=
           (match firstReserved with
            | some f => o == s!"reserved:{hex f.1}"
            | none => o.startsWith "ok:")),
+      ("fixed_pseudo_headers_keep_their_values", !o.startsWith "ok:" ||
+          (let fields := ((o.splitOn "|").getD 2 "").splitOn ";"
+           fields.contains s!"{hex Names.method}={hex Names.connect}" &&
+           fields.contains s!"{hex Names.scheme}={hex Names.https}" &&
+           fields.contains s!"{hex Names.protocol}={hex Names.webtransport}")),
+      ("extra_fields_carried_as_given", !o.startsWith "ok:" ||
+          (let fields := ((o.splitOn "|").getD 2 "").splitOn ";"
+           extra.all fun f => fields.any fun x => x.startsWith s!"{hex f.1}=")),
       ("authority_and_path_with_query_exact", !o.startsWith "ok:" ||
           (let au := (unhex (get obs 0)).getD []
            let pa := (unhex (get obs 1)).getD []
